@@ -175,6 +175,8 @@ type gen struct {
 	r     *lib.Rng
 	depth int
 	promo bool // paths may use the short names of fields promoted from embedded structs
+	// set by decl when the input type had no target left that does not overlap what is mapped already
+	noTarget bool
 }
 
 func (g *gen) leafInt() *V {
@@ -587,7 +589,7 @@ var srcTypeW = []string{"Outer", "Outer", "Outer", "*Outer", "*Outer", "Inner", 
 	"map[string]any", "map[string]any", "map[string]Inner", "map[string]*Inner", "map[string]Leaf",
 	"map[string]int", "map[string]string", "int", "string", "map[string]map[string]any", "any",
 	"Emb", "Emb", "*Emb", "map[string]Emb"}
-var tgtTypeW = []string{"Outer", "Outer", "Outer", "*Outer", "*Outer", "Inner", "*Inner", "Leaf",
+var tgtTypeW = []string{"Outer", "Outer", "Outer", "*Outer", "*Outer", "Inner", "*Inner", "Leaf", "*Leaf",
 	"map[string]any", "map[string]any", "any", "map[string]Inner", "map[string]Inner", "map[string]*Inner",
 	"map[string]Leaf", "map[string]int", "map[string]string", "map[string]map[string]any", "map[string]Outer",
 	"Emb", "Emb", "*Emb", "map[string]Emb", "map[string]*Emb"}
@@ -608,6 +610,23 @@ func (g *gen) decl(T string, tpaths []pinfo, n int, used *[][]string) Decl {
 	ipaths := enumIfacePaths(val, S, g.depth+1)
 	for i := 0; i < n; i++ {
 		var m Mapping
+		// a small input type runs out of targets: stop rather than pile up overlapping mappings (overlaps have
+		// their own generator patterns); a declaration left without any mapping is dropped by the caller
+		if len(tpaths) > 0 {
+			free := false
+			for _, q := range tpaths {
+				if !conflictsWith(T, *used, q.path) {
+					free = true
+					break
+				}
+			}
+			if !free && len(*used) > 0 {
+				if i > 0 {
+					break
+				}
+				g.noTarget = true // (the caller may drop the declaration; otherwise it gets an overlapping mapping as before)
+			}
+		}
 		// target: prefer one that does not conflict with what is already mapped and that this source can feed
 		var tp pinfo
 		okT := false
@@ -1233,7 +1252,12 @@ func (g *gen) base(nDecls, maxMaps int, single bool) (*Case, []pinfo) {
 			break
 		}
 		total += n
-		c.Decls = append(c.Decls, g.decl(T, tpaths, n, &used))
+		g.noTarget = false
+		d := g.decl(T, tpaths, n, &used)
+		if g.noTarget && len(c.Decls) > 0 {
+			break // no target left for another declaration
+		}
+		c.Decls = append(c.Decls, d)
 	}
 	return c, tpaths
 }
